@@ -798,7 +798,47 @@ func (h *vfC15) cacheLoads() string {
 			good++
 		}
 	}
-	return fmt.Sprintf("cl=%d/%d", good, len(all))
+	// GetUsers answered by the cache lists exactly the cached users
+	names, fromCache, err := h.state.GetUsers()
+	var want []string
+	for _, r := range all {
+		want = append(want, r.n)
+	}
+	sort.Strings(want)
+	if err != nil || !fromCache || strings.Join(names, ",") != strings.Join(want, ",") {
+		return "cl=users-differ"
+	}
+	// GetSigned answered by the cache returns every cached, unexpired record
+	total := len(all)
+	srows, err := h.rawC.Query("SELECT username, type, jws_data, expiration_epoch FROM expiring_signed_user_data")
+	if err != nil {
+		return "cl=!"
+	}
+	type sr struct {
+		n, j string
+		t    int
+		e    int64
+	}
+	var sall []sr
+	for srows.Next() {
+		var r sr
+		srows.Scan(&r.n, &r.t, &r.j, &r.e)
+		sall = append(sall, r)
+	}
+	srows.Close()
+	for _, r := range sall {
+		total++
+		ok, data, err := h.state.GetSigned(r.n, r.t)
+		tok, terr := h.state.getStorageDataFromStorageStringDataJWT(r.j)
+		if r.e > time.Now().Unix() {
+			if err == nil && ok && terr == nil && data == tok.Data {
+				good++
+			}
+		} else if err == nil && !ok {
+			good++
+		}
+	}
+	return fmt.Sprintf("cl=%d/%d", good, total)
 }
 
 func vfAtoi(s string) int {
